@@ -1,5 +1,5 @@
 (* C01 - Serialized arrays decode to exactly the input records. *)
-From Verif Require Import Builder Builder_proofs Bits_proofs Refine_proofs SerializerTables SerTablesSpec.
+From Verif Require Import Builder Builder_proofs Bits_proofs Refine_proofs SerializerTables SerTablesSpec FloatOfInt FloatOfInt_proofs.
 
 (* Full-strength statement (kept visible). It is evaluated on every case of the check as the
    specification oracle RunC01.oracle (decode of the implementation's arrays = interp of the rows,
@@ -144,6 +144,39 @@ Proof.
   - cbn [names_ok map fname']. repeat split; repeat constructor; cbn; intuition discriminate.
   - eexists. vm_compute. reflexivity.
 Qed.
+
+(* ---- the documented mapping of integers (and chars) into Float32 / Float64 columns: `v as f32` / `v as f64` ----
+   The value stored is the float nearest to the integer, ties to the even significand (one rounding, not two):
+   with (q, e) the significand and exponent chosen by the model and u the spacing of floats in the integer's binade,
+   the error is at most u/2, and exactly u/2 only when q is even. *)
+Theorem C01_int_to_float_correctly_rounded : forall p m q e, (1 < p)%Z -> (0 < m)%Z -> (p <= Z.log2 m)%Z -> round_mag p m = (q, e) ->
+  let u := (2 ^ (Z.log2 m - (p - 1)))%Z in
+  (2 ^ (p - 1) <= q < 2 ^ p)%Z /\ (Z.log2 m <= e <= Z.log2 m + 1)%Z /\
+  (2 * Z.abs (fvalue p q e - m) <= u)%Z /\ ((2 * Z.abs (fvalue p q e - m))%Z = u -> Z.even q = true).
+Proof. exact round_mag_rounded. Qed.
+
+(* an integer that fits the significand is stored exactly *)
+Theorem C01_int_to_float_exact_when_it_fits : forall p m, (1 < p)%Z -> (0 < m)%Z -> (Z.log2 m < p)%Z ->
+  round_mag p m = ((m * 2 ^ (p - 1 - Z.log2 m))%Z, Z.log2 m) /\ (2 ^ (p - 1) <= m * 2 ^ (p - 1 - Z.log2 m) < 2 ^ p)%Z.
+Proof. exact round_mag_exact. Qed.
+
+(* the word written: sign bit, biased exponent, fraction - each inside its field, the whole inside the column width *)
+Theorem C01_int_to_float_word : forall p bias width z q e, (1 < p)%Z -> z <> 0%Z -> round_mag p (Z.abs z) = (q, e) ->
+  float_of_int p bias width z = ((if z <? 0 then 2 ^ (width - 1) else 0) + (e + bias) * 2 ^ (p - 1) + (q - 2 ^ (p - 1)))%Z
+  /\ (0 <= q - 2 ^ (p - 1) < 2 ^ (p - 1))%Z.
+Proof. exact float_of_int_fields. Qed.
+
+Theorem C01_int_to_float_in_range : forall z, (- 2 ^ 64 < z < 2 ^ 64)%Z ->
+  (0 <= f32_of_int z < 2 ^ 32)%Z /\ (0 <= f64_of_int z < 2 ^ 64)%Z.
+Proof. intros z H. split; [exact (f32_of_int_range z H)|exact (f64_of_int_range z H)]. Qed.
+
+(* non-vacuity: just above a tie the single rounding goes up (rounding through f64 first would go down) *)
+Example C01_int_to_float_example :
+  f32_of_int (2 ^ 60 + 2 ^ 36 + 1) = 1568669697%Z /\ f32_of_int (2 ^ 60 + 2 ^ 36) = 1568669696%Z /\ f32_of_int 16777217 = 1266679808%Z /\ f64_of_int (2 ^ 64 - 1) = 4895412794951729152%Z.
+Proof. vm_compute. repeat split; reflexivity. Qed.
+
+Print Assumptions C01_int_to_float_correctly_rounded.
+Print Assumptions C01_int_to_float_in_range.
 
 Print Assumptions C01_push_refines.
 Print Assumptions C01_core_proved.
